@@ -643,11 +643,14 @@ func (c *VirtualTable) Insert(ctx context.Context, values map[int]interface{}) (
 
 // checkNotNull enforces NOT NULL on the non-key columns being assigned.
 func (c *VirtualTable) checkNotNull(values map[int]interface{}) error {
+	// a table without a PRIMARY KEY declares a hidden key column first
+	offset := 0
 	if c.usesRowID {
-		return nil
+		offset = 1
 	}
 	for i, v := range values {
-		if v == nil && i != c.KeyCol && i < len(c.schema.Columns) && c.schema.Columns[i].NotNull {
+		j := i - offset
+		if v == nil && i != c.KeyCol && j >= 0 && j < len(c.schema.Columns) && c.schema.Columns[j].NotNull {
 			return ErrS3DBConstraintNotNull
 		}
 	}
